@@ -154,4 +154,15 @@ CHECKS["C04"] = {
             "connection and that each connection's export equals its export when alone.",
     "note": TRUST + "Models as C01/C02. Two connections; endpoint values are fixed constants combined per aliasing pattern (so address comparisons do not fork); non-empty connection ids of different connections are assumed not to be prefixes of each other.",
 }
+CHECKS["C03"] = {
+    "technique": "symbolic execution of main.run (stub reader/writer) on arbitrary UDP/TCP payloads and on healthy TLS/QUIC victims with one solver-chosen fault next to a healthy bystander; bystander output compared with its solo run (self-composition), victim output with the plaintext sent",
+    "text": "z3 explores every value of UDP datagrams of 1..7 bytes (alone or after a complete QUIC connection from the same or another "
+            "address) and of short TCP payloads to port 443, and for TLS 1.0-CBC / 1.1-RC4 / 1.2-GCM / 1.3 and QUIC victims every position "
+            "of a deleted packet, a shortened payload, an overwritten payload byte, every subset of removed key-log lines, unrelated secrets "
+            "and an unknown ServerHello suite id: main.run always returns, the bystander's export equals its solo export, and for "
+            "information-removing faults the victim's exported stream is a prefix of what it sent. Two known findings (packet loss with "
+            "non-AEAD suites; QUIC loss) are reported as such and their paths excluded.",
+    "note": TRUST + "Ideal cryptography incl. collision-free KDFs and rejection of forged AEAD ciphertexts; overwrite faults on record-type/version bytes, "
+            "wrong keys / overwrites for the CBC victim and (quick tier) for QUIC are outside the bound because garbage lengths fork without limit; bounds in the evidence.",
+}
 NOT_APPLICABLE = {}
